@@ -60,6 +60,10 @@ class BitBuffer:
         if self._type is None or self._type.size is None:
             raise ValueError("Invalid state")
 
+        if not 0 <= data < (1 << bits):
+            # Don't let a value spill into the bits of the neighbouring fields
+            raise ValueError(f"Value {data} does not fit in a bit field of {bits} bits")
+
         if self.endian == "<":
             self._buffer |= data << (self._type.size * 8 - self._remaining)
         else:
